@@ -189,7 +189,12 @@ def opt_mds(pi):
         for n, (xh, br, lp, hi) in enumerate(COMBOS):
             base = OPT_PRESETS[pi]
             o = {"xhtmlOut": xh, "breaks": br, "langPrefix": LANGP[lp], "highlight": HLS[hi]}
-            if n % 2 == 0:
+            if n % 3 == 2:
+                # ... attribute assignment ...
+                md = C.build(base, fresh=True)
+                for k, v in o.items():
+                    setattr(md.options, k, v)
+            elif n % 3 == 0:
                 # constructor route (options_update) ...
                 from markdown_it import MarkdownIt
 
